@@ -38,7 +38,7 @@ def run(ctx):
                     length = min(n, 400000)
                 every = max(1, length // (40 if not (ind in ("MAD", "CCI") and p >= 100) else 6))
                 cases.append(GenCase("g%d_%s_p%d_r%d" % (k, ind, p, g), ind, (p, 0, 0, 2.0 if ind == "BB" else 0.0), g,
-                                     r.getrandbits(62), length, m, 1000.0 * m, every, ind in BARS, p + 1,
+                                     r.getrandbits(62), length, m, 1000.0 * m, every, (r.choice([1, 1, 2]) if ind in BARS else 0), p + 1,
                                      meta={"ind": ind, "p": p, "regime": g, "band": m, "n": length}))
                 k += 1
     run_gen_harness(ctx.binary_release or ctx.binary, cases, "C13")
@@ -46,10 +46,12 @@ def run(ctx):
     viol = []
     t1_bad = []
     for c, x in zip(cases, res):
-        code, j = divmod(x, 1000000)
-        if code in (1, 2, 4):
+        t2x, t1x = divmod(x, 100000000)
+        if t1x:
+            c.result = t1x
             t1_bad.append(c)
-        elif code == 3:
+        code, j = divmod(t2x, 1000000)
+        if code == 3:
             kk = c.cps[j - 1][0] if 0 < j <= len(c.cps) else -1
             viol.append(Violation("%s(%d) regime %d band [%g, %g]: after %d inputs the output %s leaves tau(t)*maxmag of the from-scratch "
                                   "value of the current window" % (c.ind, c.params[0], c.gen, c.a, c.b, kk, c.cps[j - 1][1] if j else "?"),
